@@ -4,6 +4,7 @@ package dastard
 
 import (
 	"os"
+	"time"
 
 	"github.com/spf13/viper"
 )
@@ -143,4 +144,99 @@ func verifC16SendAll() {
 	VerifHook = nil
 	vObserve("ntopics", int64(len(last)))
 	vWitness("c16sendall-end")
+}
+
+// verifC16Persist: the real RunClientUpdater; a symbolic sequence of status updates over
+// persistent and non-persistent topics; then the delayed save fires: the configuration
+// store handed to the file writer holds, for every persistent topic, exactly its latest
+// state, and nothing for topics that are not to be preserved across runs.
+func verifC16Persist() {
+	dir := os.Getenv("VERIF_WORK")
+	if dir == "" {
+		dir = "/cfg"
+	}
+	os.MkdirAll(dir, 0755)
+	mainname := dir + "/config.yaml"
+	viper.SetConfigFile(mainname)
+	c16Put(mainname, "previous: configuration\n")
+	abort := make(chan struct{})
+	go RunClientUpdater(5596, abort)
+	vSettle(400)
+	topics := []string{"TRIGGER", "WRITING", "ALIVE", "TRIGGERRATE", "NEWDASTARD"}
+	persistent := map[string]bool{"TRIGGER": true, "WRITING": true}
+	n := vParam("nupdates", 3)
+	last := map[string]int{}
+	for k := 0; k < n; k++ {
+		ks := string(rune('0' + k))
+		tag := topics[vRange("topic"+ks, 0, len(topics)-1)]
+		val := vRange("value"+ks, 0, 2)
+		clientMessageChan <- ClientUpdate{tag: tag, state: struct{ V int }{val}}
+		vSettle(30)
+		last[tag] = val
+	}
+	vAdvance(2300) // the save-after-change delay (2 s) elapses, or the regular save tick comes
+	close(abort)
+	vSettle(30)
+	npersist := 0
+	for _, tag := range topics {
+		v, published := last[tag]
+		got := viper.Get(tag)
+		if persistent[tag] && published {
+			npersist++
+			st, ok := got.(struct{ V int })
+			vCheck(ok && st.V == v, "the saved configuration holds the latest state of every persistent topic")
+		} else if !persistent[tag] {
+			vCheck(got == nil, "topics without configuration to preserve are not saved")
+		}
+	}
+	if npersist > 0 {
+		vCheck(vFsExists(mainname), "the configuration file exists after the save")
+		b := vFsBytes(mainname)
+		vCheck(!c16Same(b, []byte("previous: configuration\n")), "the configuration file was rewritten by the save")
+	}
+	vObserve("npersist", int64(npersist))
+	vWitness("c16persist-end")
+}
+
+// verifC16Restore: what the previous run saved under the TRIGGER topic — several channel
+// groups with different, symbolic trigger settings — is what each channel starts with at the
+// next start-up (PrepareRun reading the configuration store back).
+func verifC16Restore() {
+	nchan := 5
+	ngroups := vRange("ngroups", 1, 3)
+	levels := []RawType{RawType(vSymU16("level0")), RawType(vSymU16("level1")), RawType(vSymU16("level2"))}
+	vAssume(levels[0] != levels[1] && levels[1] != levels[2] && levels[0] != levels[2])
+	// channel -> group: a case-split assignment; channel 4 belongs to no group
+	assign := make([]int, nchan)
+	var saved []FullTriggerState
+	for g := 0; g < ngroups; g++ {
+		ts := TriggerState{LevelTrigger: true, LevelRising: g%2 == 0, LevelLevel: levels[g], AutoTrigger: g == 1, AutoDelay: time.Duration(g+1) * time.Millisecond}
+		saved = append(saved, FullTriggerState{TriggerState: ts})
+	}
+	for c := 0; c < nchan; c++ {
+		assign[c] = -1
+		if c < nchan-1 {
+			assign[c] = vRange("group"+string(rune('0'+c)), 0, ngroups-1)
+			saved[assign[c]].ChannelIndices = append(saved[assign[c]].ChannelIndices, c)
+		}
+	}
+	viper.Set("trigger", saved)
+	ds := new(AnySource)
+	ds.nchan = nchan
+	ds.name = "verif"
+	ds.sampleRate = 10000
+	ds.PrepareChannels()
+	vCheck(ds.PrepareRun(3, 4) == nil, "PrepareRun succeeds")
+	for c := 0; c < nchan; c++ {
+		got := ds.processors[c].TriggerState
+		if g := assign[c]; g >= 0 {
+			want := saved[g].TriggerState
+			vCheck(got.LevelTrigger == want.LevelTrigger && got.LevelRising == want.LevelRising && got.LevelLevel == want.LevelLevel &&
+				got.AutoTrigger == want.AutoTrigger && got.AutoDelay == want.AutoDelay, "each channel starts with the trigger settings saved for its group")
+		} else {
+			vCheck(!got.LevelTrigger && !got.EdgeTrigger, "a channel that was in no saved group gets the default settings")
+		}
+	}
+	vObserve("ngroups", int64(ngroups))
+	vWitness("c16restore-end")
 }
